@@ -94,6 +94,10 @@ void vs_log(int kind, int64_t a, int64_t b);
 void vs_point_cond(int op, int obj, int (*enabled_fn)(void *), void *arg);
 // Optional digest of harness-visible state, sampled at every point (for state-hash pruning).
 void vs_set_digest_fn(uint64_t (*fn)(void));
+// Optional scheduling oracle: when set, it is asked at every point (after the forced prefix) which of the
+// enabled threads runs next (list in canonical order, returns an index, or -1 = diverged).
+void vs_set_chooser(int (*fn)(int running, const int *enabled, int n, void *arg), void *arg);
+int vs_thread_simpid(int tid);
 // process-level simulated pid for the calling thread (C10); 0 = not set
 void vs_set_simpid(int pid);
 int vs_simpid(void);
